@@ -404,6 +404,8 @@ func (c *checker) checkPSV(p rawPart) {
 		rep.fire("psv.layout")
 		if pos != len(d) {
 			rep.addf("psv.layout", "PSV0 (v0): %d bytes decoded but the part has %d", pos, len(d))
+		} else {
+			psv.Complete = true
 		}
 		return
 	}
@@ -538,9 +540,14 @@ func (c *checker) checkPSV(p rawPart) {
 	rep.fire("psv.layout")
 	if pos != len(d) {
 		rep.addf("psv.layout", "PSV0: layout implied by its own counts ends at byte %d but the part has %d bytes", pos, len(d))
+	} else {
+		psv.Complete = true
 	}
 
 	// cross-checks with the signature parts
+	if !psv.Complete {
+		return
+	}
 	cross := func(name string, has bool, sig []SigElement, els []PSVSigElement) {
 		if !has {
 			return
@@ -562,6 +569,9 @@ func (c *checker) checkPSV(p rawPart) {
 		if psv.SigPatch != 0 {
 			rep.addf("psv.sig-count", "PSV0 declares %d patch-constant/primitive signature elements but the container has no PSG1 part", psv.SigPatch)
 		}
+	}
+	if !psv.Complete {
+		return
 	}
 	if c.kind == 5 && psv.HasNumThreads && c.e.NumThreads != nil {
 		rep.fire("psv.numthreads")
